@@ -221,7 +221,7 @@ func sortStrings(s []string) {
 // c05Reasons: T2
 func c05Reasons(a *Anchors, r *core.Report) {
 	rule := "C05.T2 reason-agreement"
-	r.Floor(rule, 8)
+	r.Floor(rule, 9)
 	pc := procClassify(a)
 	mc := metaClassify(a)
 	type site struct {
@@ -628,7 +628,7 @@ func guardedByParentTest(at ssa.Instruction, starts []Point) bool {
 // c05Panic: T5
 func c05Panic(a *Anchors, r *core.Report) {
 	rule := "C05.T5 panic=>reason"
-	r.Floor(rule, 8)
+	r.Floor(rule, 11)
 	procB := ifaceOf(a.P, "gen", "ProcessBehavior")
 	var targets []*ssa.Function
 	for _, f := range funcsOfPkgs(a.P, "act") {
